@@ -90,6 +90,7 @@ func (v *Value) UnmarshalNBT(tagType byte, r nbt.DecoderReader) error {
 			return nbt.ErrEND
 		}
 
+		v.elem = t
 		v.list = v.list[:0]
 
 		for i := int32(0); i < length; i++ {
